@@ -1,4 +1,5 @@
 """C13 -- answers depend only on the bytes: deterministic, repeatable, no observer effect."""
+import io
 import itertools
 import json
 import os
@@ -41,8 +42,17 @@ def run_case(case):
     a brand-new Pickled.load(bytes) gives to that single question"""
     from fickling.fickle import Pickled
     data = bytes.fromhex(case["hex"])
+    off = case.get("off", 0)
     try:
-        p = Pickled.load(data)
+        if off:
+            # the object under test is parsed from the middle of a stream (like a non-first member of a
+            # stacked file); every reference object below is parsed from the bare bytes at offset 0:
+            # answers must depend on the bytes alone, not on where they were found
+            f = io.BytesIO(b"\x00" * off + data)
+            f.seek(off)
+            p = Pickled.load(f)
+        else:
+            p = Pickled.load(data)
     except Exception:
         return None                       # refused by the parser: outside the quantifier
     pool = cachelib.Pool()
@@ -146,7 +156,7 @@ def oracle_case(case):
     if r is None:
         return None
     if r["bad"]:
-        return {"hex": case["hex"], "queries": case["queries"], "oracle":
+        return {"hex": case["hex"], "off": case.get("off", 0), "queries": case["queries"], "oracle":
                 "an answer differs from what a brand-new object built from the same bytes answers",
                 "first": r["bad"][0]}
     return None
@@ -186,7 +196,7 @@ def oracle_context(case, context):
     process vs the same history after other pickles (first each single predecessor, then all of them)"""
     from harness import c14
     me = {"hex": case["hex"], "queries": case["queries"]}
-    ctx = [{"hex": c["hex"], "queries": c["queries"]} for c in context]
+    ctx = [{"hex": c["hex"], "off": c.get("off", 0), "queries": c["queries"]} for c in context]
     jobs = [{"mode": "c13", "histories": [me]}] + [{"mode": "c13", "histories": [c, me]} for c in ctx[::-1][:400]]
     if ctx:
         jobs.append({"mode": "c13", "histories": ctx + [me]})
@@ -249,10 +259,21 @@ def main(tier, seed):
         for perm in itertools.permutations(CORE, k):
             cases.append({"kind": "exh:" + kind, "hex": data.hex(), "queries": list(perm)})
     chk.stats["exhaustive-orderings"] = len(cases)
+    # the same pickles (plus PROTO-tampered ones, whose findings come from opcode-level analyses) parsed at a
+    # non-zero stream offset
+    offs = list(base_pickles()) + [("dupproto", asm.fam_flagged(rng, "dupproto")[0]),
+                                   ("misproto", asm.assemble(["NONE", "POP", ("PROTO", 4), "NONE", "STOP"]))]
+    for kind, data in offs:
+        for off in (1, 51):
+            cases.append({"kind": "offset:" + kind, "hex": data.hex(), "off": off,
+                          "queries": ["safety", "unparse", "imports", "safety", "dumps"]})
     pk = gen_pickles(chk, nrand)
     for kind, data in pk:
         qs = [rng.choice(VIEWS13) for _ in range(rng.randrange(1, 9))]
-        cases.append({"kind": kind, "hex": data.hex(), "queries": qs})
+        c = {"kind": kind, "hex": data.hex(), "queries": qs}
+        if rng.random() < 0.25:
+            c["off"] = rng.choice([1, 2, 9, 300])
+        cases.append(c)
     results = run_real(cases)
     lines, idx = [], []
     for i, r in enumerate(results):
@@ -281,14 +302,14 @@ def main(tier, seed):
         if r["known"]:
             known_hits += 1
         for b in r["bad"]:
-            bad_free.append({"hex": c["hex"], "queries": c["queries"], **b})
+            bad_free.append({"hex": c["hex"], "off": c.get("off", 0), "queries": c["queries"], **b})
         if not r.get("line"):
             outside += 1
     for j, i in enumerate(idx if built else []):
         c, r = cases[i], results[i]
         msteps = out[j].split(" | ") if out[j] else []
         if out[j].startswith("!") or len(msteps) != len(r["steps"]):
-            mism.append({"hex": c["hex"], "queries": c["queries"], "why": "model output malformed",
+            mism.append({"hex": c["hex"], "off": c.get("off", 0), "queries": c["queries"], "why": "model output malformed",
                          "model": out[j][:300]})
             continue
         tainted = False
@@ -307,7 +328,7 @@ def main(tier, seed):
             if why.startswith("skip:"):
                 skipped[why[5:]] = skipped.get(why[5:], 0) + 1
                 continue
-            mism.append({"hex": c["hex"], "queries": c["queries"], "step": n, "query": q, "why": why,
+            mism.append({"hex": c["hex"], "off": c.get("off", 0), "queries": c["queries"], "step": n, "query": q, "why": why,
                          "real": real[:300], "model": mans[:300]})
             break
     chk.stats["refused-by-parser"] = refused
@@ -375,7 +396,7 @@ def main(tier, seed):
     def search():
         for b in bad_free:
             if "queries" in b:
-                why = oracle_case({"hex": b["hex"], "queries": b["queries"]})
+                why = oracle_case({"hex": b["hex"], "off": b.get("off", 0), "queries": b["queries"]})
                 if why:
                     return why
         for b in seed_bad:
@@ -384,7 +405,7 @@ def main(tier, seed):
                 if why:
                     return why
         for m in mism:
-            why = oracle_case({"hex": m["hex"], "queries": m["queries"]})
+            why = oracle_case({"hex": m["hex"], "off": m.get("off", 0), "queries": m["queries"]})
             if why:
                 return why
         for m in (bad_free + mism)[:3]:     # what did the same worker process analyse before this history?
@@ -416,7 +437,7 @@ def replay(path):
     elif "hashseed" in case:
         why = oracle_seeds([case["hex"]], [case["hashseed"]])
     else:
-        why = oracle_case({"hex": case["hex"], "queries": case.get("queries", [])})
+        why = oracle_case({"hex": case["hex"], "off": case.get("off", 0), "queries": case.get("queries", [])})
     if why:
         print(f"VIOLATION property=C13 replay={path}")
         print(json.dumps(why)[:2000])
